@@ -22,9 +22,10 @@ import (
 // faultyReaderAt fails the k-th ReadAt (counted from when it is armed).
 type faultyReaderAt struct {
 	r     io.ReaderAt
-	k     int
-	n     int
-	armed bool
+	k       int
+	n       int
+	armed   bool
+	partial bool
 }
 
 func (f *faultyReaderAt) ReadAt(p []byte, off int64) (int, error) {
@@ -32,6 +33,11 @@ func (f *faultyReaderAt) ReadAt(p []byte, off int64) (int, error) {
 		i := f.n
 		f.n++
 		if i == f.k {
+			if f.partial && len(p) > 1 {
+				// part of the data together with the error
+				n, _ := f.r.ReadAt(p[:len(p)/2], off)
+				return n, errInjected
+			}
 			return 0, errInjected
 		}
 	}
@@ -41,8 +47,9 @@ func (f *faultyReaderAt) ReadAt(p []byte, off int64) (int, error) {
 // every operation of C15: runs with the k-th dependency call failing (k = -1: none)
 // and returns: result ("ok"/"err"), calls after the failing one ("0" close / "1" other),
 // whether the state of the objects is unchanged, and the number of dependency calls.
-func c15Run(op string, k int, short, silent bool, in []byte) (res string, after []string, same bool, ncalls int) {
+func c15Run(op string, k int, mode string, in []byte) (res string, after []string, same bool, ncalls int) {
 	same = true
+	short, silent := mode == "short" || mode == "short-noerr", mode == "short-noerr"
 	key := rsaKey(2048, 0)
 	cert := simpleCert(key, "image signer 0", 300)
 	signer := &recSigner{key: key, fail: k == 0 && strings.HasPrefix(op, "sign")}
@@ -122,6 +129,12 @@ func c15Run(op string, k int, short, silent bool, in []byte) (res string, after 
 		afero.WriteFile(base, path, append([]byte{0x27, 0, 0, 0}, in...), 0644)
 		rec := newRecFs(base)
 		rec.plan.k = k
+		rec.plan.shortRead, rec.plan.thenFail = strings.HasPrefix(mode, "short-read"), mode == "short-read-then-fail"
+		defer func() {
+			if rec.plan.shortRead && !rec.plan.applied {
+				res = "n/a" // the call was not a read of two or more bytes: nothing was injected
+			}
+		}()
 		var err error
 		switch op {
 		case "fs/GetVarWithAttributes":
@@ -159,11 +172,11 @@ func c15Run(op string, k int, short, silent bool, in []byte) (res string, after 
 		fsAfter(rec)
 		return errRes(err), after, true, ncalls
 	case "reader/Parse":
-		fr := &faultyReaderAt{r: bytes.NewReader(in), k: k, armed: true}
+		fr := &faultyReaderAt{r: bytes.NewReader(in), k: k, armed: true, partial: mode == "partial"}
 		_, err := authenticode.Parse(fr)
 		return errRes(err), nil, true, fr.n
 	case "reader/Hash", "reader/Sign", "reader/Verify":
-		fr := &faultyReaderAt{r: bytes.NewReader(in), k: k}
+		fr := &faultyReaderAt{r: bytes.NewReader(in), k: k, partial: mode == "partial"}
 		p, err := authenticode.Parse(fr)
 		if err != nil {
 			return "setup-failed", nil, true, 0
@@ -208,11 +221,11 @@ func init() {
 	implOps["fault"] = func(a []string) []string {
 		var k int
 		fmt.Sscan(a[1], &k)
-		res, after, same, n := c15Run(a[0], k, a[2] != "fail", a[2] == "short-noerr", unhx(a[3]))
+		res, after, same, n := c15Run(a[0], k, a[2], unhx(a[3]))
 		return []string{res, strings.Join(after, ","), b01(same), fmt.Sprint(n)}
 	}
 	checkers["C15"] = checker{
-		rule: "operations: SignPKCS7, SignAuthenticode, PECOFFBinary.Sign, SignEFIVariable, WriteSignedUpdate with a failing crypto.Signer; WriteVar, attributes.WriteEfivars, WriteSignedUpdate, GetVar, GetVarWithAttributes, attributes.ReadEfivars, Getdb over a fault-injecting afero.Fs; Parse, Hash, Sign, Verify over a fault-injecting io.ReaderAt; for each operation and input a fault-free run in the sandboxed worker counts the dependency calls, then EVERY position k of that sequence is failed in turn (errors, and for the write also a short count with and without an error): exhaustive for the sequences the operation issues; R_C15 (extracted check_fault) requires: no success and no digest, only Close after a failed file-system call, the image object unchanged after a failed Sign, no file-system call after a failed signer, process alive (worker class return); non-trivial = every fault position, distinct by (operation, k, mode, input)",
+		rule: "operations: SignPKCS7, SignAuthenticode, PECOFFBinary.Sign, SignEFIVariable, WriteSignedUpdate with a failing crypto.Signer; WriteVar, attributes.WriteEfivars, WriteSignedUpdate, GetVar, GetVarWithAttributes, attributes.ReadEfivars, Getdb over a fault-injecting afero.Fs; Parse, Hash, Sign, Verify over a fault-injecting io.ReaderAt; for each operation and input a fault-free run in the sandboxed worker counts the dependency calls, then EVERY position k of that sequence is failed in turn (errors; for the write also a short count with and without an error; for reads of a variable also a legal short read, alone (the value must still be right) and followed by failing reads; for image reads also part of the data together with the error): exhaustive for the sequences the operation issues; R_C15 (extracted check_fault) requires: no success and no digest, only Close after a failed file-system call, the image object unchanged after a failed Sign, no file-system call after a failed signer, process alive (worker class return); non-trivial = every fault position, distinct by (operation, k, mode, input)",
 		run:  runC15,
 	}
 }
@@ -267,6 +280,12 @@ func runC15(c *Ctx) {
 			if f.short {
 				modes = append(modes, "short", "short-noerr")
 			}
+			if strings.HasPrefix(f.op, "fs/Get") || f.op == "fs/ReadEfivars-legacy" {
+				modes = append(modes, "short-read", "short-read-then-fail")
+			}
+			if strings.HasPrefix(f.op, "reader/") {
+				modes = append(modes, "partial")
+			}
 
 			for k := 0; k < n; k++ {
 				for _, mode := range modes {
@@ -277,7 +296,15 @@ func runC15(c *Ctx) {
 					} else {
 						res = o.Class
 					}
+					if res == "n/a" {
+						continue
+					}
 					resOK := res != "err"
+					if mode == "short-read" {
+						// a short read is legal: the operation may go on reading and succeed, but then with the right value
+						resOK = res == "ok-wrong-value"
+						after = "" // further reads are exactly what is expected
+					}
 					args := []string{b01(resOK), after, same}
 					v, info := c.Drv.Eval("fault", args...)
 					if v != "ok" {
